@@ -114,6 +114,8 @@ inline KeySpec gen_key(const std::string &what) {  // fresh key via OpenSSL (tho
 struct JwkOpts {
   bool priv = true;
   std::string alg;        // "" = no alg member
+  bool swap_pq = false;    // RSA private: the two primes in the other order (p < q is as legal as p > q), dp/dq exchanged, qi recomputed
+  bool eq_pad = false;     // members written WITH '=' padding (what e.g. Python's urlsafe_b64encode emits)
   std::string alg_raw;    // raw JSON text for the alg member (e.g. 256: the item is flagged "Invalid alg type" AFTER its key material was loaded)
   std::string kid;        // "" = none
   std::string use;        // "" = none
@@ -125,17 +127,24 @@ struct JwkOpts {
 };
 inline std::string zpad(const std::string &b, int pad) { return std::string(pad, '\0') + b; }
 inline std::string strip0(std::string b) { size_t i = 0; while (i + 1 < b.size() && b[i] == 0) i++; return b.substr(i); }
+// coefficient of an RSA key whose primes are written in the other order: (old p)^-1 mod (old q)
+inline std::string rsa_swapped_qi(EVP_PKEY *pk) {
+  BIGNUM *p = nullptr, *q = nullptr; EVP_PKEY_get_bn_param(pk, OSSL_PKEY_PARAM_RSA_FACTOR1, &p); EVP_PKEY_get_bn_param(pk, OSSL_PKEY_PARAM_RSA_FACTOR2, &q);
+  BN_CTX *c = BN_CTX_new(); BIGNUM *r = BN_mod_inverse(nullptr, p, q, c); std::string out = r ? bn_bytes(r, BN_num_bytes(r)) : std::string(); BN_free(r); BN_free(p); BN_free(q); BN_CTX_free(c); return out;
+}
 inline std::string jwk_json(const KeySpec &k, const JwkOpts &o) {
   std::string m;
-  auto add = [&](const char *n, const std::string &bytes) { m += std::string(",\"") + n + "\":\"" + b64u_enc(bytes) + "\""; };
+  auto add = [&](const char *n, const std::string &bytes) { std::string t = b64u_enc(bytes); if (o.eq_pad) while (t.size() % 4) t += '='; m += std::string(",\"") + n + "\":\"" + t + "\""; };
   if (k.kind == K_OCT) { m = "\"kty\":\"oct\""; add("k", k.oct); }
   else if (k.kind == K_RSA) {
     m = "\"kty\":\"RSA\"";
     add("n", zpad(pkey_bn(k.pkey, OSSL_PKEY_PARAM_RSA_N), o.pad)); add("e", zpad(pkey_bn(k.pkey, OSSL_PKEY_PARAM_RSA_E), o.pad));
     if (o.priv) {
-      add("d", zpad(pkey_bn(k.pkey, OSSL_PKEY_PARAM_RSA_D), o.pad)); add("p", zpad(pkey_bn(k.pkey, OSSL_PKEY_PARAM_RSA_FACTOR1), o.pad));
-      add("q", zpad(pkey_bn(k.pkey, OSSL_PKEY_PARAM_RSA_FACTOR2), o.pad)); add("dp", zpad(pkey_bn(k.pkey, OSSL_PKEY_PARAM_RSA_EXPONENT1), o.pad));
-      add("dq", zpad(pkey_bn(k.pkey, OSSL_PKEY_PARAM_RSA_EXPONENT2), o.pad)); add("qi", zpad(pkey_bn(k.pkey, OSSL_PKEY_PARAM_RSA_COEFFICIENT1), o.pad));
+      const char *P1 = o.swap_pq ? OSSL_PKEY_PARAM_RSA_FACTOR2 : OSSL_PKEY_PARAM_RSA_FACTOR1, *P2 = o.swap_pq ? OSSL_PKEY_PARAM_RSA_FACTOR1 : OSSL_PKEY_PARAM_RSA_FACTOR2;
+      const char *E1 = o.swap_pq ? OSSL_PKEY_PARAM_RSA_EXPONENT2 : OSSL_PKEY_PARAM_RSA_EXPONENT1, *E2 = o.swap_pq ? OSSL_PKEY_PARAM_RSA_EXPONENT1 : OSSL_PKEY_PARAM_RSA_EXPONENT2;
+      add("d", zpad(pkey_bn(k.pkey, OSSL_PKEY_PARAM_RSA_D), o.pad)); add("p", zpad(pkey_bn(k.pkey, P1), o.pad));
+      add("q", zpad(pkey_bn(k.pkey, P2), o.pad)); add("dp", zpad(pkey_bn(k.pkey, E1), o.pad));
+      add("dq", zpad(pkey_bn(k.pkey, E2), o.pad)); add("qi", zpad(o.swap_pq ? rsa_swapped_qi(k.pkey) : pkey_bn(k.pkey, OSSL_PKEY_PARAM_RSA_COEFFICIENT1), o.pad));
     }
   } else if (k.kind == K_EC) {
     int w = (k.bits + 7) / 8;
